@@ -56,6 +56,31 @@ def IsValCall (k : Nat) : VExpr → Prop
   | .extract _ t _ => IsValCall k t
   | _ => False
 
+/-- `b` denotes the value `a` itself, up to tuple projection and interface boxing (SSA values are
+immutable, so a verdict about `a` is a verdict about the data in `b`). This is what
+`ValuesWithSameData` establishes when its two memory rules are not used. -/
+inductive SameReg : VExpr → VExpr → Prop
+  | same {a b : VExpr} : a.id = b.id → SameReg a b
+  | extract {a t : VExpr} {i : Nat} {l : Bool} : SameReg a t → SameReg a (.extract i t l)
+  | boxL {x b : VExpr} {i : Nat} : SameReg x b → SameReg (.makeIface i x) b
+  | boxR {a x : VExpr} {i : Nat} : SameReg a x → SameReg a (.makeIface i x)
+
+/-- the call tested by `e` has an argument that is the destination value `arg` itself. -/
+def TestsArg (arg : VExpr) : VExpr → Prop
+  | .call _ _ _ args => ∃ a ∈ args, SameReg a arg
+  | .nilCheck _ x _ => TestsArg arg x
+  | .not _ x => TestsArg arg x
+  | .extract _ t _ => TestsArg arg t
+  | _ => False
+
+/-- `k` is a validator call tested by `e` and applied to the destination value `arg` itself. -/
+def IsValCallOn (k : Nat) (arg : VExpr) : VExpr → Prop
+  | .call k' _ isVal args => k' = k ∧ isVal = true ∧ ∃ a ∈ args, SameReg a arg
+  | .nilCheck _ x _ => IsValCallOn k arg x
+  | .not _ x => IsValCallOn k arg x
+  | .extract _ t _ => IsValCallOn k arg t
+  | _ => False
+
 /-- one step of an execution: from block `a` (whose instructions ran under verdicts `ρ`) to `b`. -/
 def StepOK (g : Cfg) (tbl : CondTable) (a : Nat) (ρ : Env) (b : Nat) : Prop :=
   b ∈ succsOf g a ∧
@@ -73,6 +98,11 @@ def RunOK (g : Cfg) (tbl : CondTable) : Run → Prop
 def Accepted (g : Cfg) (tbl : CondTable) (run : Run) : Prop :=
   ∃ a ρ k, (a, ρ) ∈ run ∧ (blockOf g a).isIf = true ∧
     IsValCall k (lookupCond tbl (blockOf g a).cond) ∧ ρ k = true
+
+/-- the same, and the accepting validator call was applied to the destination value itself. -/
+def AcceptedFor (g : Cfg) (tbl : CondTable) (arg : VExpr) (run : Run) : Prop :=
+  ∃ a ρ k, (a, ρ) ∈ run ∧ (blockOf g a).isIf = true ∧
+    IsValCallOn k arg (lookupCond tbl (blockOf g a).cond) ∧ ρ k = true
 
 /-- **Full-strength statement** (false on the current code, see `validator_drop_sound_false`):
 whenever the conditions attached to an edge make the visitor drop it, every execution from the
